@@ -864,3 +864,33 @@ mod tc {
         }
     }
 }
+
+// ---- bounded stand-in A.he.deadline_from_finish [C10, C11]: the overall deadline is a duration counted from the moment
+// the operation is STARTED (`finish()`), not from the construction of the set.  A set that is built, kept for longer
+// than its overall time-out and only then run must still try its candidates (round 5, C10-r5m1 fixed the deadline as
+// `Instant::now() + timeout` in `new`).  One-sided: the only candidate succeeds 25 ms after it is started, the time-out is 400 ms; on
+// correct code the result cannot be a time-out unless the machine stalls this one task for more than 375 ms. ----
+#[tokio::test]
+async fn standin_deadline_counts_from_finish() {
+    use std::time::Duration;
+    for concurrency in [None, Some(1), Some(2)] {
+        let timeout = Duration::from_millis(400);
+        type Cand = std::pin::Pin<Box<dyn std::future::Future<Output = Result<u32, String>> + Send>>;
+        let mut set: EyeballSet<Cand, u32, String> = EyeballSet::new(Some(Duration::from_millis(50)), Some(timeout), concurrency);
+        // the candidate needs one timer tick (a time-out future polls its inner future first, so a candidate that is
+        // ready at its very first poll would win even against a deadline that has long passed)
+        set.push(Box::pin(async {
+            tokio::time::sleep(Duration::from_millis(25)).await;
+            Ok(7)
+        }));
+        // the caller holds the set for longer than the overall time-out before it starts the operation
+        tokio::time::sleep(timeout + Duration::from_millis(200)).await;
+        let r = tokio::time::timeout(Duration::from_secs(10), set.finish()).await.expect("finish() hangs");
+        match r {
+            Ok(v) => assert_eq!(v, 7),
+            Err(e) => panic!(
+                "a set run 600 ms after its construction (overall time-out 400 ms, concurrency {concurrency:?}) did not try its only, ready candidate: {e:?}"
+            ),
+        }
+    }
+}
